@@ -1062,8 +1062,8 @@ class TermCanvas(Canvas):
         .XXX
         XX..
         """
-        sx, sy = self.constrain_coords(*start)
-        ex, ey = self.constrain_coords(*end)
+        sx, sy = self.constrain_coords(*start[:2], ignore_scrolling=True)
+        ex, ey = self.constrain_coords(*end[:2], ignore_scrolling=True)
 
         # within a single row
         if sy == ey:
